@@ -199,4 +199,45 @@ theorem c14_hankel_open (a c : Corr β) (n : Nat) (hn : 0 < n) (h : a.hankel n f
   simp [List.getD_eq_getElem?_getD, List.getElem?_map, List.getElem?_range ht, hn]
 
 
+/-- C14 (item): `item(i, j)` keeps the temporal extent, is single-valued, and on every timeslice holds
+    entry (i, j) of the operand's matrix — undefined exactly where the operand is undefined (or has
+    no such entry) -/
+theorem c14_item (a c : Corr β) (i j : Nat) (h : a.item i j = .ok c) :
+    c.T = a.T ∧ c.N = 1 ∧
+    ∀ t, t < a.T → c.content.getD t none =
+      (a.content.getD t none).bind (fun mm => ((mm.getD i [])[j]?).map (fun x => [[x]])) := by
+  unfold Corr.item at h
+  split at h
+  · cases h
+  cases h
+  refine ⟨by simp [Corr.T], rfl, ?_⟩
+  intro t ht
+  have h1 : t < a.content.length := by simpa [Corr.T] using ht
+  simp only [List.getD_eq_getElem?_getD, List.getElem?_map, List.getElem?_eq_getElem h1, Option.map_some, Option.getD_some]
+  cases a.content[t] with
+  | none => rfl
+  | some mm =>
+    simp only [Option.bind_some]
+    cases (mm[i]?.getD [])[j]? <;> rfl
+
+/-- C14 (trace): on every defined timeslice the sum of the diagonal entries; undefined exactly where
+    the operand is undefined -/
+theorem c14_trace [Scalar β] (a c : Corr β) (h : a.trace = .ok c) :
+    c.T = a.T ∧ c.N = 1 ∧
+    ∀ t, t < a.T → c.content.getD t none =
+      (a.content.getD t none).map (fun mm => [[Scalar.sum ((List.range a.N).map (fun i => (mm.getD i []).getD i 0))]]) := by
+  unfold Corr.trace at h
+  split at h
+  · cases h
+  cases h
+  refine ⟨by simp [Corr.T], rfl, ?_⟩
+  intro t ht
+  have h1 : t < a.content.length := by simpa [Corr.T] using ht
+  simp only [List.getD_eq_getElem?_getD, List.getElem?_map, List.getElem?_eq_getElem h1, Option.map_some, Option.getD_some]
+
+/-- `item` and `trace` are refused for single-valued correlators -/
+theorem c14_item_trace_need_matrix [Scalar β] (a : Corr β) (h : a.N = 1) (i j : Nat) :
+    a.item i j = .error .needMatrix ∧ a.trace = .error .needMatrix := by
+  simp [Corr.item, Corr.trace, h]
+
 end PV
